@@ -90,7 +90,16 @@ MID_IDXFLAG = {"name": "mid", "params": [["t", NODEFAULT]], "body": [sub("inner"
                "ret": ["list", [Vv("ia"), Vv("ib"), Vv("ic")]], "subs": [INNER_IDXFLAG]}
 
 
+INNER_SETUP_FLAG = {"name": "inner", "params": [["a", NODEFAULT]],
+                    "body": [call("sk0", [], "g"), call("sinc", [Vv("g")], "m", flag=Vv("g")), call("sk0", [], "h", flag=C(False)),
+                             call("add", [P("a"), Vv("m")], "w0")],
+                    "ret": ["tuple", [Vv("w0"), Vv("m"), Vv("h")]], "subs": []}
+
+
 def inner_flag_programs():
+    # setup nodes carrying their OWN flag (a constant / another setup node's result) inside a DAG called inside a DAG
+    yield "inner_setup_nodes_with_flags", [sub("inner", [P("x")], ["ra", "rb", "rc"]), call("ident", [Vv("rb")], "s")], \
+        ["tuple", [Vv("ra"), Vv("rb"), Vv("rc"), Vv("s")]], [INNER_SETUP_FLAG]
     """flags INSIDE a nested DAG that are indexed / unpacked parts of inner results (no flag on the nested call itself)"""
     yield "inner_indexed_flags", [sub("inner", [P("x")], ["ra", "rb", "rc"]), call("ident", [Vv("rb")], "s")], \
         ["tuple", [Vv("ra"), Vv("rb"), Vv("rc"), Vv("s")]], [INNER_IDXFLAG]
@@ -133,6 +142,48 @@ def main(x):
 '''
 
 
+CONST_RETURN_SRC = '''
+from tawazi import xn, dag
+import twzmc.harness as H
+import twzmc.ir as IRL
+
+@xn
+def inc(*a, **k):
+    return H.lib_call("inc", IRL.LIB["inc"], a, k)
+
+@dag
+def inner(a):
+    return inc(a), 9
+
+@dag
+def inner_d(a):
+    return {{"v": inc(a), "c": "z"}}
+
+@dag
+def main(x, f):
+    r = {call}(x, twz_active=f)
+    return r
+'''
+
+
+def const_return_case(acc, c):
+    """'all outputs of a deactivated nested DAG are None' - also the outputs that are Python constants of the inner return"""
+    from ..build import exec_source
+    acc.cases += 1
+    for call_, active_val, inactive_val in (("inner", (4, 9), (None, None)), ("inner_d", {"v": 4, "c": "z"}, {"v": None, "c": None})):
+        src = CONST_RETURN_SRC.format(call=call_)
+        ns = exec_source(src)
+        d = ns["main"]
+        for f, want in ((True, active_val), (False, inactive_val), (0, inactive_val)):
+            res = H.run_controlled(lambda: d(3, f))
+            acc.evaluations += 1
+            acc.mark_nontrivial(("const_return", call_, repr(f)))
+            if res.outcome != "return" or res.value != want:
+                kind = "deactivated_nested_constant_output" if (not f and res.outcome == "return") else "wrong_value"
+                acc.violation(V(kind, f"{call_}(x, twz_active={f!r}) whose return contains a Python constant returned {res.value!r}, expected {want!r}",
+                                constant_in_inner_return=True, flag_truthy=bool(f)), dict(c, call=call_, f=repr(f)), (), res.trace, src)
+
+
 def stateful_case(acc, c):
     """the flag value is looked at when the DAG RUNS: a constant that is truthy at description time and falsy at run time deactivates"""
     from ..build import exec_source
@@ -152,6 +203,7 @@ def stateful_case(acc, c):
 
 def cases(tier: str):
     yield dict(flag="stateful_constant", carrier="special", prog=None, expect_build_error=None, special="stateful")
+    yield dict(flag="param", carrier="sub_const_return", prog=None, expect_build_error=None, special="const_return")
     for name, body, rspec, subs in inner_flag_programs():
         prog = {"name": "main", "params": [["x", NODEFAULT], ["y", 4]], "body": body, "ret": rspec, "subs": subs}
         yield dict(flag="inside_nested", carrier=name, prog=prog, expect_build_error=None)
@@ -170,6 +222,8 @@ INPUTS = [(0,), (3,), (-1,), (-2,), (0, 7), (3, 7)]
 def run_one(acc, c):
     if c.get("special") == "stateful":
         return stateful_case(acc, c)
+    if c.get("special") == "const_return":
+        return const_return_case(acc, c)
     prog = c["prog"]
     case = {"prog": prog, "flag": c["flag"], "carrier": c["carrier"]}
     if c["expect_build_error"]:
